@@ -27,6 +27,9 @@ if mods:
         'LbzVerif.Props.C03.output_eq_partial',
         'LbzVerif.Props.C03.output_eq',
         'LbzVerif.Props.C03.output_canon',
+        'LbzVerif.Props.C03.File.file_eq',
+        'LbzVerif.Props.C03.File.file_eq_gen',
+        'LbzVerif.Props.C03.File.file_is_function',
     ])
 exe = ck.build_lbzip2(asan=False)
 rng = ck.rng
